@@ -38,7 +38,9 @@ pub fn peer_message(op: &Op) -> Option<(RMsg, u32, u32)> {
                 amf::s("not an object")
             } else {
                 match app {
-                    Some(a) => amf::obj(vec![("app", amf::s(a)), ("flashVer", amf::s("FMLE/3.0")), ("objectEncoding", amf::num(0.0))]),
+                    // every third connect omits objectEncoding, every fifth sends AMF3 (3.0)
+                    Some(a) if (*txid as u64) % 3 == 0 => amf::obj(vec![("app", amf::s(a)), ("flashVer", amf::s("FMLE/3.0"))]),
+                    Some(a) => amf::obj(vec![("app", amf::s(a)), ("flashVer", amf::s("FMLE/3.0")), ("objectEncoding", amf::num(if (*txid as u64) % 5 == 0 { 3.0 } else { 0.0 }))]),
                     None => amf::obj(vec![("flashVer", amf::s("FMLE/3.0"))]),
                 }
             };
